@@ -736,6 +736,11 @@ struct Run {
     present.assign(U.cells.size(), 0);
     if (!universe_is_chain_complex(U)) { c.violation("harness.generator", "dd_nonzero", "generated universe is no chain complex: " + U.kind); return; }
     id_style = (int)r.below(3);
+    // Chain matrix with vine updates: remove_last does not give the column index back, so the identifier an id-less
+    // insert_boundary assigns after a removal is the number of insertions ever made, not the position.  The documentation is
+    // ambiguous there ("n-th insertion" vs "relative position in the filtration"), so implicit identifiers are not combined with
+    // removals for those instantiations (vine swaps are C06's subject).
+    if (FL == F_CHAIN && T.vine && RC && id_style == 0) { id_style = 1; c.count("ids.implicit_avoided_for_chain_with_vine"); }
     const int planned = (int)std::min<size_t>(U.cells.size(), (size_t)r.range(6, 40));
     c.log("universe " + U.kind + " cells=" + std::to_string(U.cells.size()) + " p=" + std::to_string(p) + " planned=" + std::to_string(planned) +
           " ids=" + (id_style == 0 ? "implicit" : id_style == 1 ? "explicit" : "gaps"));
